@@ -1,11 +1,19 @@
 """C19 — check options do only what they document (metamorphic relations
 between option variants of one generated predicate; pandas + polars).
 
-One case = (predicate, data set with nulls / groups / index shape, level,
-ignore_na, lazy).  Levels: pandas Column, SeriesSchema, DataFrameSchema-level
-check, groupby (Column and DataFrameSchema level), alias-vs-canonical
-built-ins (pandas + polars), polars Column.  See pvm/c19_rel.py for the
-relations and what is left undecided.
+One case = (predicate, data set with nulls / groups / index shape / physical
+dtype, level, ignore_na, lazy).  Levels: pandas Column, SeriesSchema,
+DataFrameSchema-level check, groupby (Column and DataFrameSchema level),
+alias-vs-canonical built-ins (pandas + polars), polars Column.  The data is
+materialised as plain numpy columns or as nullable EXTENSION dtypes really
+holding pd.NA (Int64, Int32, UInt8, Float64, boolean, string[python],
+int64/double/bool[pyarrow]); grouping columns are str, int, bool or
+CATEGORICAL with categories that have no rows (empty groups); every level
+also runs check functions whose output is ONE bool (aggregates, built-in
+unique_values_eq, groupby functions, dataframe-level functions; Python bool
+and numpy bool; bool Series that cannot be aligned with the data; bool
+DataFrames) under raise_warning / n_failure_cases / ignore_na.  See
+pvm/c19_rel.py for the relations and what is left undecided.
 """
 from __future__ import annotations
 
@@ -24,23 +32,50 @@ def new_run():
     return Run(
         PID, "exploration",
         "case = (predicate from a generated family: comparisons, modular "
-        "arithmetic, string predicates, predicates raising on null; data: "
-        "0-8 rows of int/float/str with nulls, 1-3 groups, range / shuffled / "
-        "string / repeated index labels; level; ignore_na; lazy). Each case "
-        "runs every option variant of the predicate through schema.validate "
-        "and compares verdict, failure cases, SchemaWarnings and the arguments "
-        "the instrumented function was shown. non-trivial = the data has at "
-        "least one row; distinct = canonical hash of the case description",
+        "arithmetic, string and bool predicates, predicates raising on null; "
+        "data: 0-8 rows of int/float/str/bool with nulls, held as numpy "
+        "columns or as nullable extension dtypes with pd.NA (Int64, Int32, "
+        "UInt8, Float64, boolean, string[python], int64/double/bool[pyarrow]); "
+        "1-3 groups keyed by a str, int, bool or CATEGORICAL column (with "
+        "categories that have no rows, groups emptied by ignore_na, `groups` "
+        "naming an empty category); range / shuffled / string / repeated "
+        "index labels; level; ignore_na; lazy). Each case runs every option "
+        "variant of the predicate through schema.validate - as element-wise "
+        "function, vectorised map, native vectorised expression and as a "
+        "function returning ONE bool (aggregate `s.min() > k`, `.all()`, "
+        "Python / numpy bool, Check.unique_values_eq, groupby and "
+        "dataframe-level functions, a bool Series on another index, a bool "
+        "DataFrame), each plain, with n_failure_cases, with raise_warning "
+        "and with both - and compares verdict, failure cases, SchemaWarnings "
+        "and the arguments the instrumented function was shown (for groupby: "
+        "the dict of groups against a pure-Python group-by over the "
+        "categories / keys). non-trivial = the data has at least one row; "
+        "distinct = canonical hash of the case description",
         ["scalar reading of each predicate (pvm/c19_gen.py:py_pred) is the "
          "meaning of 'the function'",
          "documented null handling: Series/columns drop null elements, "
          "dataframe-level checks drop rows with any null "
          "(docs/source/checks.md 'Handling Null Values')",
-         "polars: groupby, what ignore_na=False shows and n_failure_cases "
-         "truncation are not judged (docs/source/polars.md: not all pandas "
-         "functionality is supported)",
-         "categorical / null group keys, MultiIndex and invalid `groups` "
-         "values are not generated"])
+         "a function returning one bool is judged by applying the same "
+         "function to the documented input (the column without its null "
+         "elements when ignore_na=True, the whole column otherwise), built "
+         "independently of pandera; what a null of an extension dtype looks "
+         "like to a mapped function (NaN / pd.NA) is pandas' choice, so the "
+         "element-wise verdict under ignore_na=False on such nulls is not "
+         "judged (that they are shown is)",
+         "a categorical grouping column has every category as a group "
+         "(pandas groupby observed=False, the default pandera documents "
+         "nothing else for); with two grouping columns only the groups that "
+         "have rows are judged; `groups` naming a non-categorical group "
+         "whose elements are all null under ignore_na=True is generated but "
+         "not judged; the verdict of a bool Series of another length than "
+         "the data is not judged",
+         "polars: groupby, what ignore_na=False shows, n_failure_cases "
+         "truncation and the verdict of a Python-bool output are not judged "
+         "(docs/source/polars.md: not all pandas functionality is "
+         "supported; documented outputs are LazyFrames)",
+         "null group keys, MultiIndex and `groups` values that are no group "
+         "key at all are not generated"])
 
 
 def one_case(run, rng, i, shard=0):
@@ -144,64 +179,134 @@ def run(run, ctx):
 
 
 def finalize(run, ctx):
-    # about 1/4 of what a quick run (seed 0, N=1600) evaluates on the unchanged
-    # tree; the thorough tier runs 25x as many cases
+    # about 1/4 of the minimum a quick run (seeds 0,1,2,3,12345; N=2400)
+    # evaluates on the unchanged tree; the thorough tier runs 25x as many cases
     m = 1 if ctx.tier == "quick" else 20
     for k, v in FLOORS_QUICK.items():
         run.floors[k] = v * m
 
 
 FLOORS_QUICK = {
-    "alias:between": 12,
-    "alias:eq": 10,
-    "alias:ge": 10,
-    "alias:gt": 11,
-    "alias:le": 10,
-    "alias:lt": 12,
+    "alias:between": 15,
+    "alias:eq": 14,
+    "alias:ge": 11,
+    "alias:gt": 14,
+    "alias:le": 15,
+    "alias:lt": 16,
     "alias:ne": 13,
-    "groupby:form:callable:1col:all": 9,
+    "data:extension-dtype-holding-NA:Float64": 19,
+    "data:extension-dtype-holding-NA:Int32": 5,
+    "data:extension-dtype-holding-NA:Int64": 14,
+    "data:extension-dtype-holding-NA:UInt8": 4,
+    "data:extension-dtype-holding-NA:bool[pyarrow]": 5,
+    "data:extension-dtype-holding-NA:boolean": 9,
+    "data:extension-dtype-holding-NA:double[pyarrow]": 10,
+    "data:extension-dtype-holding-NA:int64[pyarrow]": 5,
+    "data:extension-dtype-holding-NA:string": 18,
+    "frame:returns:dataframe": 18,
+    "frame:returns:scalar-np": 18,
+    "frame:returns:scalar-py": 18,
+    "groupby:case-with-a-group-emptied-by-ignore_na": 12,
+    "groupby:case-with-empty-groups": 23,
+    "groupby:form:callable:1col:all": 11,
     "groupby:form:callable:1col:groups": 9,
     "groupby:form:callable:2col:all": 8,
-    "groupby:form:list:1col:all": 9,
-    "groupby:form:list:1col:groups": 9,
-    "groupby:form:list:2col:all": 10,
-    "groupby:form:str:1col:all": 11,
-    "groupby:form:str:1col:groups": 11,
-    "rel:alias:documented-semantics:evaluated": 42,
-    "rel:alias:same-check-object:evaluated": 80,
-    "rel:alias:same-outcome:pandas:evaluated": 80,
-    "rel:alias:same-outcome:polars:evaluated": 39,
-    "rel:element_wise:failure_cases==failing-elements:evaluated": 19,
-    "rel:element_wise==all(f(x)):evaluated": 112,
-    "rel:element_wise==map:evaluated": 116,
-    "rel:frame:element_wise==row-map:evaluated": 45,
-    "rel:frame:ignore_na=False:null-rows-shown:evaluated": 4,
-    "rel:frame:ignore_na=True:null-rows-hidden:evaluated": 5,
-    "rel:frame:ignore_na=True:nulls-never-fail:evaluated": 5,
-    "rel:frame:n_failure_cases:verdict-unchanged:evaluated": 45,
-    "rel:groupby:exact-groups:evaluated": 80,
-    "rel:groupby:ignore_na=True:nulls-hidden:evaluated": 15,
-    "rel:ignore_na=False:nulls-shown:evaluated": 11,
-    "rel:ignore_na=True:nulls-hidden:evaluated": 14,
-    "rel:ignore_na=True:nulls-never-fail:evaluated": 14,
-    "rel:n_failure_cases:first-k:evaluated": 23,
-    "rel:n_failure_cases:subset:evaluated": 32,
-    "rel:n_failure_cases:verdict-unchanged:evaluated": 116,
-    "rel:native-vectorised==all(f(x)):evaluated": 62,
-    "rel:polars:element_wise==all(f(x)):evaluated": 71,
-    "rel:polars:element_wise==map:evaluated": 76,
-    "rel:polars:ignore_na=True:nulls-hidden:evaluated": 9,
-    "rel:polars:n_failure_cases:verdict-unchanged:evaluated": 76,
-    "rel:polars:native-expression==all(f(x)):evaluated": 52,
-    "rel:polars:raise_warning:never-raises:evaluated": 76,
-    "rel:polars:raise_warning:warns-iff-fails:accept:evaluated": 55,
-    "rel:polars:raise_warning:warns-iff-fails:reject:evaluated": 21,
-    "rel:polars:vectorised_map==all(f(x)):evaluated": 71,
-    "rel:raise_warning:never-raises:evaluated": 153,
-    "rel:raise_warning:warns-iff-fails:accept:evaluated": 99,
-    "rel:raise_warning:warns-iff-fails:reject:evaluated": 54,
-    "rel:vectorised_map:failure_cases==failing-elements:evaluated": 19,
-    "rel:vectorised_map==all(f(x)):evaluated": 112,
+    "groupby:form:callable_scalar:1col:all": 10,
+    "groupby:form:callable_scalar:1col:groups": 10,
+    "groupby:form:list:1col:all": 13,
+    "groupby:form:list:1col:groups": 8,
+    "groupby:form:list:2col:all": 8,
+    "groupby:form:str:1col:all": 12,
+    "groupby:form:str:1col:groups": 7,
+    "groupby:groups-names-only-empty-groups": 5,
+    "groupby:keys:bool": 6,
+    "groupby:keys:categorical": 36,
+    "groupby:keys:int": 16,
+    "groupby:keys:str": 46,
+    "groupby:returns:np:elements": 20,
+    "groupby:returns:np:nonempty": 10,
+    "groupby:returns:py:elements": 17,
+    "groupby:returns:py:nonempty": 10,
+    "groupby:returns:series:elements": 20,
+    "groupby:returns:series:nonempty": 8,
+    "options-on:element_wise": 58,
+    "options-on:vectorised_map": 113,
+    "polars:scalar:form:lazyframe-scalar": 76,
+    "polars:scalar:form:python-bool": 32,
+    "rel:alias:documented-semantics:evaluated": 59,
+    "rel:alias:same-check-object:evaluated": 112,
+    "rel:alias:same-outcome:pandas:evaluated": 112,
+    "rel:alias:same-outcome:polars:evaluated": 53,
+    "rel:element_wise:failure_cases==failing-elements:evaluated": 25,
+    "rel:element_wise==all(f(x)):evaluated": 157,
+    "rel:element_wise==map:evaluated": 175,
+    "rel:frame:element_wise==row-map:evaluated": 55,
+    "rel:frame:ignore_na=False:null-rows-shown:evaluated": 7,
+    "rel:frame:ignore_na=True:null-rows-hidden:evaluated": 9,
+    "rel:frame:ignore_na=True:nulls-never-fail:evaluated": 9,
+    "rel:frame:n_failure_cases:verdict-unchanged:evaluated": 55,
+    "rel:frame:returns-bool:n_failure_cases:verdict-unchanged:evaluated": 54,
+    "rel:frame:returns-bool:raise_warning:never-raises:evaluated": 77,
+    "rel:frame:returns-bool:raise_warning:warns-iff-fails:accept:evaluated": 45,
+    "rel:frame:returns-bool:raise_warning:warns-iff-fails:reject:evaluated": 31,
+    "rel:frame:verdict==returned-bool:evaluated": 55,
+    "rel:groupby:empty-groups-handed-over:evaluated": 23,
+    "rel:groupby:exact-groups:evaluated": 115,
+    "rel:groupby:ignore_na=True:nulls-hidden:evaluated": 23,
+    "rel:groupby:n_failure_cases:verdict-unchanged:evaluated": 103,
+    "rel:groupby:options-do-not-change-the-groups:evaluated": 103,
+    "rel:groupby:raise_warning:never-raises:evaluated": 144,
+    "rel:groupby:raise_warning:warns-iff-fails:accept:evaluated": 108,
+    "rel:groupby:raise_warning:warns-iff-fails:reject:evaluated": 30,
+    "rel:groupby:verdict==returned-bool:evaluated": 103,
+    "rel:ignore_na=False:nulls-shown:evaluated": 18,
+    "rel:ignore_na=True:nulls-hidden:evaluated": 29,
+    "rel:ignore_na=True:nulls-never-fail:evaluated": 29,
+    "rel:n_failure_cases:first-k:evaluated": 35,
+    "rel:n_failure_cases:subset:evaluated": 51,
+    "rel:n_failure_cases:verdict-unchanged:evaluated": 175,
+    "rel:native-vectorised==all(f(x)):evaluated": 87,
+    "rel:polars:element_wise==all(f(x)):evaluated": 102,
+    "rel:polars:element_wise==map:evaluated": 117,
+    "rel:polars:ignore_na=True:nulls-hidden:evaluated": 16,
+    "rel:polars:n_failure_cases:verdict-unchanged:evaluated": 117,
+    "rel:polars:native-expression==all(f(x)):evaluated": 72,
+    "rel:polars:raise_warning:never-raises:evaluated": 117,
+    "rel:polars:raise_warning:warns-iff-fails:accept:evaluated": 83,
+    "rel:polars:raise_warning:warns-iff-fails:reject:evaluated": 33,
+    "rel:polars:scalar-output:raise_warning:never-raises:evaluated": 117,
+    "rel:polars:scalar-output:raise_warning:warns-iff-fails:accept:evaluated": 83,
+    "rel:polars:scalar-output:raise_warning:warns-iff-fails:reject:evaluated": 33,
+    "rel:polars:scalar-output==all(f(x)):evaluated": 67,
+    "rel:polars:vectorised_map==all(f(x)):evaluated": 102,
+    "rel:raise_warning:never-raises:evaluated": 277,
+    "rel:raise_warning:warns-iff-fails:accept:evaluated": 186,
+    "rel:raise_warning:warns-iff-fails:reject:evaluated": 89,
+    "rel:scalar-output:ignore_na=False:nulls-shown:evaluated": 14,
+    "rel:scalar-output:ignore_na=True:nulls-hidden:evaluated": 20,
+    "rel:scalar-output:n_failure_cases:verdict-unchanged:evaluated": 175,
+    "rel:scalar-output:raise_warning:never-raises:evaluated": 253,
+    "rel:scalar-output:raise_warning:warns-iff-fails:accept:evaluated": 162,
+    "rel:scalar-output:raise_warning:warns-iff-fails:reject:evaluated": 87,
+    "rel:scalar-output:verdict==returned-bool:evaluated": 77,
+    "rel:scalar-output==F(documented-input):agg:evaluated": 13,
+    "rel:scalar-output==F(documented-input):all-np:evaluated": 18,
+    "rel:scalar-output==F(documented-input):all-py:evaluated": 21,
+    "rel:scalar-output==F(documented-input):count-py:evaluated": 19,
+    "rel:scalar-output==F(documented-input):evaluated": 140,
+    "rel:scalar-output==F(documented-input):reindexed-series:evaluated": 19,
+    "rel:scalar-output==F(documented-input):unique_values_eq:evaluated": 41,
+    "rel:vectorised_map:failure_cases==failing-elements:evaluated": 25,
+    "rel:vectorised_map==all(f(x)):evaluated": 157,
+    "scalar:form:agg": 15,
+    "scalar:form:all-np": 19,
+    "scalar:form:all-py": 22,
+    "scalar:form:count-py": 20,
+    "scalar:form:reindexed-series": 21,
+    "scalar:form:short-series": 21,
+    "scalar:form:unique_values_eq": 46,
+    "scalar:returned:numpy-bool": 31,
+    "scalar:returned:python-bool": 45,
 }
 
 
